@@ -373,6 +373,8 @@ func (r *Router) saveStateSnapshot() error {
 	}
 
 	slog.Debug("Saved state", "path", r.statePath)
+	verifEvent("snap-rename", r)
+	verifYield("snapshot:renamed", r)
 	return nil
 }
 
